@@ -1175,9 +1175,10 @@ def _inline_stmt_exprs(prog, f, st, local_defs, depth, skip_names=()):
     return st
 
 
-def walk_expanded(prog, f, depth=3, _seen=None):
+def walk_expanded(prog, f, depth=3, _seen=None, by_name=False):
     """Yield (node, owner FuncInfo) for f and for every repository function / property reachable from it through self./cls./
-    module-level calls and `self.<property>` reads (bounded depth)."""
+    module-level calls and `self.<property>` reads (bounded depth).  by_name: a method call on a receiver of unknown type is
+    followed when exactly one class of the program defines a method of that name."""
     seen = _seen if _seen is not None else set()
     if f in seen or depth < 0:
         return
@@ -1189,10 +1190,14 @@ def walk_expanded(prog, f, depth=3, _seen=None):
             r = resolve_callee(prog, f, n)
             if r is not None and isinstance(r[0], FuncInfo):
                 g = r[0]
+            elif by_name and isinstance(n.func, ast.Attribute) and not n.func.attr.startswith("__"):
+                owners = [c_ for c_ in prog.all_classes() if n.func.attr in c_.methods]
+                if len(owners) == 1:
+                    g = owners[0].methods[n.func.attr]
         elif isinstance(n, ast.Attribute) and isinstance(n.value, ast.Name) and n.value.id in ("self", "cls") and f.cls is not None \
                 and isinstance(n.ctx, ast.Load):
             h = prog.lookup(f.cls, n.attr)
             if h is not None and h.kind in ("property", "lazyproperty", "staticmethod", "classmethod", "method"):
                 g = h
         if g is not None and g not in seen:
-            yield from walk_expanded(prog, g, depth - 1, seen)
+            yield from walk_expanded(prog, g, depth - 1, seen, by_name)
